@@ -240,7 +240,14 @@ pub fn run(args: &Args, rep: &mut Report) {
             crate::corpus::calibrate_file(rep, &corpus[i as usize], node_cap);
             return;
         }
-        let b = gen_bundle(rng, &params);
+        // the per-block spend limit: exactly at, one below and one above it
+        let b = if i % 1500 == 777 {
+            let n = *rng.pick(&[5999usize, 6000, 6001, 6002]);
+            rep.count(&format!("spend-limit-stratum:{n}"));
+            vcore::bundlegen::many_spends(rng, n)
+        } else {
+            gen_bundle(rng, &params)
+        };
         let out = b.output();
         for _ in 0..combos {
             let flags = flags_from_bits(rng.below(32));
